@@ -189,6 +189,38 @@ def run(tier, seed):
                 idx = [ents.index(e) for e in v]
                 if [json.dumps(e, sort_keys=True) for e in v] != [json.dumps(e, sort_keys=True) for e in ents if e in v] or any(R.project_entity(e)["kind"].startswith("?") for e in v):
                     V.mismatch(dict(case, problem="bucket order differs from the flat order / entity of unknown kind", bucket=b))
+    # ---- statement-prefix matrix and scripts whose ALTER / INDEX target is not defined (before them): whatever the flat call returns, the
+    #      grouped call must return the same entities regrouped (only judged when BOTH calls return; on the pinned tree the unknown-target
+    #      scripts raise under both settings and several prefix forms yield nothing - neither is demanded here) ------------------------------
+    tails = {"DATABASE": "d1", "SCHEMA": "sc1", "TABLE": "t1 (a int)", "SEQUENCE": "sq1 START 1", "TABLESPACE": "ts1", "TYPE": "ty1 AS ENUM ('a')", "DOMAIN": "dm1 AS int"}
+    loose = [f"CREATE {o}{md}{k} {ine}{tl};\nCREATE TABLE z9 (b int);\n" for k, tl in tails.items() for o in ("", "OR REPLACE ")
+             for md in ("", "TRANSIENT ", "TEMPORARY ", "GLOBAL TEMPORARY ", "EXTERNAL ", "BIGFILE ") for ine in ("", "IF NOT EXISTS ")]
+    loose += ["ALTER TABLE nope ADD UNIQUE (a);\nCREATE TABLE nope (a int);\n", "CREATE TABLE t1 (a int);\nCREATE INDEX i1 ON nope (a);\nCREATE SEQUENCE s1 START 1;\n",
+              "CREATE TABLE t1 (a int);\nALTER TABLE s9.t1 ADD CONSTRAINT fk1 FOREIGN KEY (a) REFERENCES p (x);\n", "CREATE UNIQUE INDEX i1 ON nope (a);\n",
+              "ALTER TABLE nope DROP COLUMN a;\nALTER TABLE nope RENAME COLUMN a TO b;\n", "DROP TABLE nope;\nALTER TABLE nope ADD UNIQUE (a);\n"]
+    lt = []
+    lmodes = modes if thorough else modes[:2]
+    for sp_ in loose:
+        for m in lmodes:
+            lt.append((sp_, {}, {"output_mode": m}))
+            lt.append((sp_, {}, {"output_mode": m, "group_by_type": True}))
+    lo, _ = C.parse_many(lt)
+    nloose = 0
+    for k2 in range(0, len(lt), 2):
+        flat, grp = lo[k2], lo[k2 + 1]
+        case = {"ddl": lt[k2][0], "mode": lt[k2][2]["output_mode"]}
+        if flat[0] != "ok" or grp[0] != "ok":
+            continue
+        nloose += 1
+        ncmp += 1
+        ents = [e for e in flat[1] if "comments" not in e]
+        if not isinstance(grp[1], dict):
+            V.mismatch(dict(case, problem="grouped result is not a dict"))
+            continue
+        regrouped = [e for b, v in grp[1].items() if b != "comments" for e in v]
+        if sorted(json.dumps(e, sort_keys=True) for e in ents) != sorted(json.dumps(e, sort_keys=True) for e in regrouped):
+            V.mismatch(dict(case, problem="the buckets do not hold exactly the entities of the flat list", flat=ents, grouped=grp[1]))
+    cov["prefix_matrix_and_unknown_targets_both_returned"] = nloose
     # ---- the relation also holds when the same call dumps its result (the dump must not touch what is returned) ---------------------------
     dsc = ["CREATE TABLE t1 (a int); -- c1\nCREATE SEQUENCE s1 START 1; /* c2 */\nCREATE SCHEMA sc1;\n-- c3\nCREATE TYPE ty AS ENUM ('a'); -- c4\n",
            "CREATE TABLE t1 (a int);\nALTER TABLE t1 ADD UNIQUE (a); -- only comment\n", "CREATE DATABASE d1;\nCREATE TABLESPACE ts1; -- x\nSET q = 1;\n"]
